@@ -1,6 +1,7 @@
 package rules
 
 import (
+	"sort"
 	"fmt"
 	"go/constant"
 	"go/token"
@@ -241,9 +242,24 @@ func runC11(c *Ctx) {
 		// ---- C11.2: extension tests guarded by Op == Write || Op == Create
 		wv, _ := fsnotifyOp(c, "Write")
 		cv, _ := fsnotifyOp(c, "Create")
+		// what the scanner loads (the extensions its walk callback accepts) - the watcher must
+		// react to exactly those files
+		var scanExts []string
+		if scan := c.U.Func("cdi", "scanSpecDirs"); scan != nil {
+			for _, call := range ir.Calls(scan) {
+				if f := call.Common().StaticCallee(); f != nil && (f.String() == "path/filepath.Walk" || f.String() == "path/filepath.WalkDir") && len(call.Common().Args) == 2 {
+					for _, cb := range c.U.FuncValues(call.Common().Args[1]) {
+						for _, consts := range c.extCompareSets(cb) {
+							scanExts = append(scanExts, consts...)
+						}
+					}
+				}
+			}
+		}
 		for v, consts := range c.extCompareSets(fn) {
 			ok := sameSet(consts, specExts)
 			r.Check("C11.2", "ext-table", ok, c.U.Pos(v.Pos()), fmt.Sprintf("the watcher filters names by %v", consts))
+			r.Check("C11.2", "ext-agrees-with-scan", len(scanExts) > 0 && sameSet(uniq(consts), uniq(scanExts)), c.U.Pos(v.Pos()), fmt.Sprintf("the watcher reacts to files with the extensions the scanner loads (watcher %v, scanner %v)", uniq(consts), uniq(scanExts)))
 			call := v.(*ssa.Call)
 			// the Ext call (start of the name filter) is reachable only via Op == Write or Op == Create
 			var edges []ir.Edge
@@ -582,4 +598,17 @@ func (c *Ctx) trackedNeverDeleted(rule string) {
 	if n == 0 {
 		c.R.OK(rule, "tracked-never-deleted", "", "no entry of the tracked-directories table is ever deleted: a directory that cannot be watched stays pending and is retried at every update")
 	}
+}
+
+func uniq(a []string) []string {
+	m := map[string]bool{}
+	var out []string
+	for _, x := range a {
+		if !m[x] {
+			m[x] = true
+			out = append(out, x)
+		}
+	}
+	sort.Strings(out)
+	return out
 }
